@@ -1,12 +1,13 @@
 """C14: formatting one entry never depends on the entries formatted before it.
 
 spec/emf/EmfHistory.tla        the formatter's reused state (six prefixed buffers, dimension-set map,
-                               capacity/shrink, per-call flags) and a catalogue of 21 entry kinds; TLC
-                               checks Stateless / NoResidue / PrefixKept on every reachable formatter state
-                               for 11 configuration classes, and that each of six deliberately missing
-                               resets (CONSTANT Bug) is caught by Stateless (sensitivity of the model)
-spec/emf/EmfHistoryReplay.tla  history variable: every sequence of kinds up to a depth (BFS) and long
-                               -simulate walks, one REPLAY line per behaviour
+                               capacity/shrink, per-call flags), a catalogue of 19 entry kinds and, orthogonal
+                               to the kind, the writer fault of a call (none | first byte | mid record | inside
+                               the last line); TLC checks Stateless / NoResidue / PrefixKept on every reachable
+                               formatter state for 11 configuration classes, and that each of seven deliberately
+                               missing resets (CONSTANT Bug) is caught by Stateless (sensitivity of the model)
+spec/emf/EmfHistoryReplay.tla  history variable: every pair (kind x fault) -> kind, triples
+                               kind -> (kind x fault) -> kind, long -simulate walks; one REPLAY line each
 harness/src/bin/emfh.rs        R: one long-lived real formatter formats the sequence; every position is
                                compared with a freshly built formatter (same entry, writer, RNG draws)
 """
@@ -15,13 +16,11 @@ import vlib
 from vlib import log
 
 SPECD = os.path.join(vlib.SPEC, "emf")
-BUGS = ["declNotCleared", "mapNotCleared", "countsDirty", "splitHoisted", "shrinkCuts", "dimsNotCleared"]
-# kinds whose predecessors / successors matter for the property statement
-REJECTED = {"dupField", "emptyName", "awsName", "missingDim", "dimIsMetric", "dimsNoSplit", "twoTs", "errValue",
-            "edimsTwice", "badRate"}
-
+BUGS = ["declNotCleared", "dimsCached", "countsDirty", "mapNotCleared", "splitHoisted", "shrinkCuts", "dimsNotCleared"]
 
 def model_runs(chk, tier):
+    if getattr(vlib, "SKIP_MC", False):   # VERIF_SKIP_MC: self-test only (the model does not depend on the code)
+        return
     r = vlib.model_check(SPECD, "EmfHistory", "MC_hist.cfg", timeout=900)
     chk.add_model("EmfHistory/MC_hist.cfg", r)
     if r.coverage.get("Format", 1) == 0:
@@ -46,7 +45,8 @@ def dedup(behs, drop_last=0):
     """TLC's simulator evaluates Emit on every candidate last step of a walk: keep one per walk."""
     seen, out = set(), []
     for b in behs:
-        k = json.dumps([b["cfg"], b["kinds"][:len(b["kinds"]) - drop_last]])
+        n = len(b["kinds"]) - drop_last
+        k = json.dumps([b["cfg"], b["kinds"][:n], b["faults"][:n]])
         if k not in seen:
             seen.add(k)
             out.append(b)
@@ -54,14 +54,18 @@ def dedup(behs, drop_last=0):
 
 
 def gen_behaviours(chk, tier):
-    cfg = "MC_hist_replay_quick.cfg" if tier == "quick" else "MC_hist_replay.cfg"
-    r = vlib.tlc(SPECD, "EmfHistoryReplay", cfg, timeout=1800)
-    if r.errors or not r.no_error:
-        raise vlib.ToolError(f"EmfHistoryReplay/{cfg} failed: {r.errors[:2]}")
-    chk.add_model("EmfHistoryReplay/" + cfg, r)
-    beh = dedup(vlib.replay_lines(r))
-    chk.extra["exhaustive_behaviours"] = len(beh)
-    # long walks
+    beh = []
+    for cfg in ("MC_hist_pairs.cfg", "MC_hist_triples_quick.cfg" if tier == "quick" else "MC_hist_triples.cfg"):
+        r = vlib.tlc(SPECD, "EmfHistoryReplay", cfg, timeout=3600)
+        if r.errors or not r.no_error:
+            raise vlib.ToolError(f"EmfHistoryReplay/{cfg} failed: {r.errors[:2]}")
+        chk.add_model("EmfHistoryReplay/" + cfg, r)
+        part = dedup(vlib.replay_lines(r))
+        if not part:
+            raise vlib.ToolError(f"EmfHistoryReplay/{cfg}: no behaviours generated")
+        chk.extra["behaviours_" + cfg[8:-4]] = len(part)
+        beh += part
+    # long walks: the writer may fail at every third call
     nwalk = 24 if tier == "quick" else 400
     rw = vlib.tlc(SPECD, "EmfHistoryReplay", "MC_hist_walk.cfg", workers=1, simulate=nwalk, depth=210,
                   seed=chk.seed, timeout=1800)
@@ -70,8 +74,8 @@ def gen_behaviours(chk, tier):
     walks = dedup(vlib.replay_lines(rw), drop_last=1)
     chk.extra["walks"] = len(walks)
     chk.extra["walk_length"] = 200
-    if not beh or not walks:
-        raise vlib.ToolError("no behaviours generated")
+    if not walks:
+        raise vlib.ToolError("no walks generated")
     beh += walks
     for i, b in enumerate(beh):
         b["id"] = i + 1
@@ -79,13 +83,15 @@ def gen_behaviours(chk, tier):
 
 
 def run_behaviours(chk, prop, beh, tag="beh"):
+    for b in beh:
+        b.setdefault("faults", ["none"] * len(b["kinds"]))
     bp = os.path.join(chk.dir, f"{tag}.ndjson")
     op = os.path.join(chk.dir, f"{tag}-out.ndjson")
     vlib.write_ndjson(bp, beh)
     vlib.run_bin("emfh", ["replay", "--behaviours", bp, "--out", op, "--seed", chk.seed], timeout=3600)
     outs = {o["id"]: o for o in vlib.read_ndjson(op)}
     pairs = set()
-    after = {"rejected": 0, "io": 0, "huge": 0, "split": 0, "sampled": 0}
+    after = {"rejected": 0, "huge": 0, "split": 0, "sampled": 0, "io_failed": {}}
     ndrift = 0
     for b in beh:
         o = outs.get(b["id"])
@@ -94,13 +100,15 @@ def run_behaviours(chk, prop, beh, tag="beh"):
         if o["nondeterministic"]:
             raise vlib.ToolError(f"a freshly built formatter is not deterministic for {o['nondeterministic']} ({b['cfg']})")
         chk.evaluations += o["n"]
-        ks = b["kinds"]
+        ks, fs = b["kinds"], b["faults"]
         for i in range(1, len(ks)):
-            pairs.add((b["cfg"], ks[i - 1], ks[i]))
+            pairs.add((b["cfg"], ks[i - 1], fs[i - 1] if o["classes"][i - 1] == "io" else "none", ks[i]))
             if o["classes"][i - 1] == "reject":
                 after["rejected"] += 1
             if o["classes"][i - 1] == "io":
-                after["io"] += 1
+                # an ACCEPTED entry of this kind met a failing writer just before position i
+                key = f"{ks[i - 1]}/{fs[i - 1]}"
+                after["io_failed"][key] = after["io_failed"].get(key, 0) + 1
             if ks[i - 1] == "huge":
                 after["huge"] += 1
             if ks[i - 1] in ("split1", "split2"):
@@ -110,9 +118,10 @@ def run_behaviours(chk, prop, beh, tag="beh"):
         if o["mismatches"]:
             m = o["mismatches"][0]
             prev = ks[m["pos"] - 1] if m["pos"] > 0 else None
-            what = (f"configuration {b['cfg']}: entry #{m['pos']} ({m['kind']}) formatted after {ks[:m['pos']][-3:]} differs from a freshly "
+            hist3 = [k if w == "none" else f"{k}+writer fails ({w})" for k, w in zip(ks[:m["pos"]], fs[:m["pos"]])][-3:]
+            what = (f"configuration {b['cfg']}: entry #{m['pos']} ({m['kind']}{'' if m.get('fault', 'none') == 'none' else ', writer fails: ' + m['fault']}) formatted after {hist3} differs from a freshly "
                     f"built formatter: {m['what']}; first difference {json.dumps(m['first_difference'])[:400]}")
-            small = {"cfg": b["cfg"], "kinds": ks[:m["pos"] + 1], "pred": b.get("pred", [])[:m["pos"] + 1]}
+            small = {"cfg": b["cfg"], "kinds": ks[:m["pos"] + 1], "faults": fs[:m["pos"] + 1], "pred": b.get("pred", [])[:m["pos"] + 1]}
             chk.violation(what, {"kind": "emfhist", "behaviour": small, "mismatch": m}, key=f"{prop}:{b['cfg']}:{prev}:{m['kind']}")
         else:
             chk.traces += 1
@@ -133,7 +142,8 @@ def run(prop, tier):
                 "freshly built one; distinct_nontrivial = distinct (configuration, predecessor kind, kind) pairs compared; "
                 "traces = sequences without any difference")
     chk.assumptions = [
-        "the catalogue of 21 entry kinds and 11 configurations represents the inputs named in the property; member values vary with the position only",
+        "the catalogue of 19 entry kinds x 4 writer behaviours (never fails, fails on the first byte, mid record, inside the last line) and 11 configurations represents the inputs named in the property; member values vary with the position only",
+        "a writer fault is placed with the complete output of the entry (byte budget); a faulted call of a multi-line entry is compared by decision, size and membership of every delivered byte in the entry's records (split lines come out in hash order)",
         "a freshly built formatter is the reference (its own determinism is checked once per configuration x kind)",
         "split records are compared as a multiset of lines, members of an object order-insensitively; the Timestamp of entries without one is masked",
         "TLC results are exhaustive over the abstract buffer/flag state of EmfHistory.tla, not over byte contents",
@@ -143,7 +153,7 @@ def run(prop, tier):
     beh = gen_behaviours(chk, tier)
     outs = run_behaviours(chk, prop, beh)
     b0 = beh[len(beh) // 3]
-    chk.sample({"behaviour": {"cfg": b0["cfg"], "kinds": b0["kinds"][:6], "pred": b0["pred"][:6]},
+    chk.sample({"behaviour": {"cfg": b0["cfg"], "kinds": b0["kinds"][:6], "faults": b0["faults"][:6], "pred": b0["pred"][:6]},
                 "fresh_classes": outs[b0["id"]]["classes"][:6], "lines": outs[b0["id"]]["lines"][:6]})
     return chk.finish()
 
